@@ -456,4 +456,325 @@ theorem sharedOK_empty (code : List Stmt) :
     SharedOK { code := code, convCache := [], modCache := [] } := by
   constructor <;> (intro k v hm; cases hm)
 
+
+/-! ### resources handed out by a process-wide allocator (Model §4) -/
+
+/-- every reference points at an existing resource, and no resource is referenced by two agents -/
+def RInv (s : RState) : Prop :=
+  (∀ u i, s.held u = some i → i < s.cells.length) ∧
+  (∀ u v i, s.held u = some i → s.held v = some i → u = v)
+
+/-- agent `t` is in the same situation in `s` (the full run) and `s'` (its stand-alone run):
+    same observations so far, and the resources it holds (if any) have the same content -/
+def RRel (t : Nat) (s s' : RState) : Prop :=
+  s.log t = s'.log t ∧
+  ((s.held t = none ∧ s'.held t = none) ∨
+   (∃ i j, s.held t = some i ∧ s'.held t = some j ∧ s.cells.getD i 0 = s'.cells.getD j 0
+      ∧ i < s.cells.length ∧ j < s'.cells.length))
+
+theorem rinv_empty : RInv RState.empty := by
+  constructor
+  · intro u i h; simp [RState.empty] at h
+  · intro u v i h; simp [RState.empty] at h
+
+theorem rrel_empty (t : Nat) : RRel t RState.empty RState.empty :=
+  ⟨rfl, Or.inl ⟨rfl, rfl⟩⟩
+
+theorem rstep_fresh_acq (s : RState) (t : Nat) :
+    rstep .fresh s (.acq t) =
+      { s with cells := s.cells ++ [0], held := fun k => if k = t then some s.cells.length else s.held k } := rfl
+
+theorem rstep_fresh_rel (s : RState) (t : Nat) : rstep .fresh s (.rel t) = s := by
+  simp only [rstep]
+
+theorem getD_set_self (l : List Nat) (i v : Nat) (h : i < l.length) : (l.set i v).getD i 0 = v := by
+  simp [List.getD, h]
+
+theorem getD_set_other (l : List Nat) (i k v : Nat) (h : k ≠ i) : (l.set k v).getD i 0 = l.getD i 0 := by
+  simp [List.getD, h]
+
+theorem getD_append_lt (l : List Nat) (i : Nat) (h : i < l.length) : (l ++ [0]).getD i 0 = l.getD i 0 := by
+  simp [List.getD, List.getElem?_append_left h]
+
+theorem getD_append_len (l : List Nat) : (l ++ [0]).getD l.length 0 = 0 := by
+  simp [List.getD]
+
+theorem rstep_inv (s : RState) (e : REv) (h : RInv s) : RInv (rstep .fresh s e) := by
+  obtain ⟨hb, hi⟩ := h
+  cases e with
+  | acq t =>
+    rw [rstep_fresh_acq]
+    constructor
+    · intro u i hu
+      simp only at hu
+      simp only [List.length_append, List.length_cons, List.length_nil]
+      split at hu
+      · cases hu; omega
+      · have := hb u i hu; omega
+    · intro u v i hu hv
+      simp only at hu hv
+      split at hu <;> split at hv
+      · subst_vars; rfl
+      · cases hu; have := hb v _ hv; omega
+      · cases hv; have := hb u _ hu; omega
+      · exact hi u v i hu hv
+  | wr t v =>
+    simp only [rstep]
+    split
+    · constructor
+      · intro u i hu; simp only [List.length_set]; exact hb u i hu
+      · exact hi
+    · exact ⟨hb, hi⟩
+  | rd t =>
+    simp only [rstep]
+    split
+    · exact ⟨hb, hi⟩
+    · exact ⟨hb, hi⟩
+  | rel t => rw [rstep_fresh_rel]; exact ⟨hb, hi⟩
+
+/-- an event of another agent leaves `t`'s situation unchanged (fresh allocation) -/
+theorem rstep_other (t : Nat) (s s' : RState) (e : REv) (h : RInv s) (hr : RRel t s s')
+    (hne : e.agent ≠ t) : RRel t (rstep .fresh s e) s' := by
+  obtain ⟨hb, hi⟩ := h
+  obtain ⟨hlog, hheld⟩ := hr
+  cases e with
+  | acq u =>
+    have hut : ¬ t = u := fun e => hne e.symm
+    rw [rstep_fresh_acq]
+    refine ⟨hlog, ?_⟩
+    simp only [hut, ↓reduceIte]
+    rcases hheld with hn | ⟨i, j, h1, h2, h3, h4, h5⟩
+    · exact Or.inl hn
+    · refine Or.inr ⟨i, j, h1, h2, ?_, ?_, h5⟩
+      · rw [getD_append_lt _ _ h4]; exact h3
+      · simp only [List.length_append, List.length_cons, List.length_nil]; omega
+  | wr u v =>
+    simp only [REv.agent] at hne
+    simp only [rstep]
+    split
+    · rename_i r hur
+      refine ⟨hlog, ?_⟩
+      rcases hheld with hn | ⟨i, j, h1, h2, h3, h4, h5⟩
+      · exact Or.inl hn
+      · have hri : r ≠ i := by
+          intro e; subst e
+          exact hne (hi u t r hur h1)
+        refine Or.inr ⟨i, j, h1, h2, ?_, ?_, h5⟩
+        · simp only; rw [getD_set_other _ _ _ _ hri]; exact h3
+        · simp only [List.length_set]; exact h4
+    · exact ⟨hlog, hheld⟩
+  | rd u =>
+    simp only [REv.agent] at hne
+    have hut : ¬ t = u := fun e => hne e.symm
+    simp only [rstep]
+    split
+    · refine ⟨?_, hheld⟩
+      simp only [hut, ↓reduceIte]; exact hlog
+    · exact ⟨hlog, hheld⟩
+  | rel u => rw [rstep_fresh_rel]; exact ⟨hlog, hheld⟩
+
+/-- `t`'s own event does the same to `t` in the full run and in its stand-alone run -/
+theorem rstep_same (t : Nat) (s s' : RState) (e : REv) (hr : RRel t s s')
+    (he : e.agent = t) : RRel t (rstep .fresh s e) (rstep .fresh s' e) := by
+  obtain ⟨hlog, hheld⟩ := hr
+  cases e with
+  | acq u =>
+    simp only [REv.agent] at he; subst he
+    rw [rstep_fresh_acq, rstep_fresh_acq]
+    refine ⟨hlog, Or.inr ⟨s.cells.length, s'.cells.length, by simp, by simp, ?_, ?_, ?_⟩⟩
+    · simp only; rw [getD_append_len, getD_append_len]
+    · simp
+    · simp
+  | wr u v =>
+    simp only [REv.agent] at he; subst he
+    rcases hheld with ⟨h1, h2⟩ | ⟨i, j, h1, h2, h3, h4, h5⟩
+    · simp only [rstep, h1, h2]
+      exact ⟨hlog, Or.inl ⟨h1, h2⟩⟩
+    · simp only [rstep, h1, h2]
+      refine ⟨hlog, Or.inr ⟨i, j, h1, h2, ?_, ?_, ?_⟩⟩
+      · simp only; rw [getD_set_self _ _ _ h4, getD_set_self _ _ _ h5]
+      · simp only [List.length_set]; exact h4
+      · simp only [List.length_set]; exact h5
+  | rd u =>
+    simp only [REv.agent] at he; subst he
+    rcases hheld with ⟨h1, h2⟩ | ⟨i, j, h1, h2, h3, h4, h5⟩
+    · simp only [rstep, h1, h2]
+      exact ⟨hlog, Or.inl ⟨h1, h2⟩⟩
+    · simp only [rstep, h1, h2]
+      refine ⟨?_, Or.inr ⟨i, j, h1, h2, h3, h4, h5⟩⟩
+      simp only [↓reduceIte]; rw [hlog, h3]
+  | rel u => rw [rstep_fresh_rel, rstep_fresh_rel]; exact ⟨hlog, hheld⟩
+
+theorem rrun_sim (t : Nat) (evs : List REv) (s s' : RState) (h : RInv s) (hr : RRel t s s') :
+    RRel t (rrun .fresh s evs) (rrun .fresh s' (evs.filter fun e => e.agent == t)) := by
+  induction evs generalizing s s' with
+  | nil => exact hr
+  | cons e es ih =>
+    by_cases he : e.agent = t
+    · have : (e.agent == t) = true := by simpa using he
+      simp only [List.filter_cons, this, ↓reduceIte, rrun]
+      exact ih _ _ (rstep_inv s e h) (rstep_same t s s' e hr he)
+    · have : (e.agent == t) = false := by simpa using he
+      simp only [List.filter_cons, this, rrun]
+      exact ih _ _ (rstep_inv s e h) (rstep_other t s s' e h hr he)
+
+/-! ### immutable resources may be shared under any policy -/
+
+def AllZero (s : RState) : Prop := ∀ i, s.cells.getD i 0 = 0
+
+def REv.isWr : REv → Bool
+  | .wr _ _ => true
+  | _ => false
+
+theorem allZero_empty : AllZero RState.empty := by
+  intro i; simp [RState.empty, List.getD]
+
+theorem alloc_log (p : Policy) (s : RState) : (alloc p s).2.log = s.log := by
+  cases p <;> simp only [alloc] <;> split <;> rfl
+
+theorem alloc_held (p : Policy) (s : RState) : (alloc p s).2.held = s.held := by
+  cases p <;> simp only [alloc] <;> split <;> rfl
+
+theorem alloc_allZero (p : Policy) (s : RState) (h : AllZero s) : AllZero (alloc p s).2 := by
+  intro i
+  cases p with
+  | fresh =>
+    simp only [alloc]
+    by_cases hi : i < s.cells.length
+    · rw [getD_append_lt _ _ hi]; exact h i
+    · simp only [List.getD]
+      cases hg : (s.cells ++ [0])[i]? with
+      | none => rfl
+      | some v =>
+        have hm := List.mem_of_getElem? hg
+        simp only [List.mem_append, List.mem_singleton] at hm
+        rcases hm with hm | hm
+        · obtain ⟨k, hk, hkv⟩ := List.getElem_of_mem hm
+          have := h k
+          simp only [List.getD, List.getElem?_eq_getElem hk, hkv, Option.getD_some] at this
+          simp [this]
+        · simp [hm]
+  | pooled =>
+    simp only [alloc]
+    split
+    · rename_i r fr _
+      by_cases hri : r = i
+      · subst hri
+        simp only [List.getD, List.getElem?_set, ↓reduceIte]
+        split <;> rfl
+      · simp only; rw [getD_set_other _ _ _ _ hri]; exact h i
+    · by_cases hi : i < s.cells.length
+      · simp only; rw [getD_append_lt _ _ hi]; exact h i
+      · simp only [List.getD]
+        cases hg : (s.cells ++ [0])[i]? with
+        | none => rfl
+        | some v =>
+          have hm := List.mem_of_getElem? hg
+          simp only [List.mem_append, List.mem_singleton] at hm
+          rcases hm with hm | hm
+          · obtain ⟨k, hk, hkv⟩ := List.getElem_of_mem hm
+            have := h k
+            simp only [List.getD, List.getElem?_eq_getElem hk, hkv, Option.getD_some] at this
+            simp [this]
+          · simp [hm]
+  | cached =>
+    simp only [alloc]
+    split
+    · simp only [List.getD]
+      cases i <;> simp
+    · exact h i
+
+theorem rstep_allZero (p : Policy) (s : RState) (e : REv) (h : AllZero s) (hw : e.isWr = false) :
+    AllZero (rstep p s e) := by
+  cases e with
+  | acq t =>
+    intro i
+    have := alloc_allZero p s h i
+    simpa [rstep] using this
+  | wr t v => simp [REv.isWr] at hw
+  | rd t =>
+    simp only [rstep]
+    split
+    · exact h
+    · exact h
+  | rel t =>
+    simp only [rstep]
+    split
+    · exact h
+    · exact h
+
+/-- same observations so far, and a reference in the one run iff in the other -/
+def ZRel (t : Nat) (s s' : RState) : Prop :=
+  s.log t = s'.log t ∧ (s.held t).isSome = (s'.held t).isSome
+
+theorem rstep_log_held_rel (p : Policy) (s : RState) (u : Nat) :
+    (rstep p s (.rel u)).log = s.log ∧ (rstep p s (.rel u)).held = s.held := by
+  simp only [rstep]
+  split <;> exact ⟨rfl, rfl⟩
+
+theorem zstep_other (p : Policy) (t : Nat) (s s' : RState) (e : REv) (hr : ZRel t s s')
+    (hne : e.agent ≠ t) : ZRel t (rstep p s e) s' := by
+  obtain ⟨hlog, hh⟩ := hr
+  cases e with
+  | acq u =>
+    have hut : ¬ t = u := fun e => hne e.symm
+    simp only [rstep, alloc_log, alloc_held, ZRel, hut, ↓reduceIte]
+    exact ⟨hlog, hh⟩
+  | wr u v =>
+    simp only [rstep]
+    split
+    · exact ⟨hlog, hh⟩
+    · exact ⟨hlog, hh⟩
+  | rd u =>
+    simp only [REv.agent] at hne
+    have hut : ¬ t = u := fun e => hne e.symm
+    simp only [rstep]
+    split
+    · simp only [ZRel, hut, ↓reduceIte]; exact ⟨hlog, hh⟩
+    · exact ⟨hlog, hh⟩
+  | rel u =>
+    obtain ⟨h1, h2⟩ := rstep_log_held_rel p s u
+    simp only [ZRel, h1, h2]; exact ⟨hlog, hh⟩
+
+theorem zstep_same (p : Policy) (t : Nat) (s s' : RState) (e : REv) (hz : AllZero s) (hz' : AllZero s')
+    (hr : ZRel t s s') (he : e.agent = t) (hw : e.isWr = false) :
+    ZRel t (rstep p s e) (rstep p s' e) := by
+  obtain ⟨hlog, hh⟩ := hr
+  cases e with
+  | acq u =>
+    simp only [REv.agent] at he; subst he
+    simp only [rstep, alloc_log, ZRel, ↓reduceIte, Option.isSome_some]
+    exact ⟨hlog, trivial⟩
+  | wr u v => simp [REv.isWr] at hw
+  | rd u =>
+    simp only [REv.agent] at he; subst he
+    cases h1 : s.held u <;> cases h2 : s'.held u <;> simp only [h1, h2, Option.isSome_some, Option.isSome_none] at hh
+    · simp only [rstep, h1, h2]; exact ⟨hlog, by simp [h1, h2]⟩
+    · cases hh
+    · cases hh
+    · rename_i r r'
+      simp only [rstep, h1, h2, ZRel, ↓reduceIte, Option.isSome_some]
+      rw [hlog, hz r, hz' r']
+      exact ⟨rfl, trivial⟩
+  | rel u =>
+    obtain ⟨h1, h2⟩ := rstep_log_held_rel p s u
+    obtain ⟨h1', h2'⟩ := rstep_log_held_rel p s' u
+    simp only [ZRel, h1, h2, h1', h2']; exact ⟨hlog, hh⟩
+
+theorem zrun_sim (p : Policy) (t : Nat) (evs : List REv) (s s' : RState) (hz : AllZero s) (hz' : AllZero s')
+    (hr : ZRel t s s') (hw : ∀ e ∈ evs, e.isWr = false) :
+    ZRel t (rrun p s evs) (rrun p s' (evs.filter fun e => e.agent == t)) := by
+  induction evs generalizing s s' with
+  | nil => exact hr
+  | cons e es ih =>
+    have hwe : e.isWr = false := hw e (List.mem_cons_self ..)
+    have hws : ∀ x ∈ es, x.isWr = false := fun x hx => hw x (List.mem_cons_of_mem _ hx)
+    by_cases he : e.agent = t
+    · have : (e.agent == t) = true := by simpa using he
+      simp only [List.filter_cons, this, ↓reduceIte, rrun]
+      exact ih _ _ (rstep_allZero p s e hz hwe) (rstep_allZero p s' e hz' hwe) (zstep_same p t s s' e hz hz' hr he hwe) hws
+    · have : (e.agent == t) = false := by simpa using he
+      simp only [List.filter_cons, this, rrun]
+      exact ih _ _ (rstep_allZero p s e hz hwe) hz' (zstep_other p t s s' e hr he) hws
+
 end Risor.C09
